@@ -51,6 +51,9 @@ var wrapperCallee = map[string]string{
 	"ingest/EsPutIndexHandler":            "CallWithMyId(eswriter.ProcessPutIndex, ctx)",
 	"ingest/esPutPostSingleDocHandler":    "eswriter.ProcessPutPostSingleDocRequest(ctx, update, 0)",
 	"ingest/splunkHecIngestHandler":       "CallWithMyId(splunk.ProcessSplunkHecIngestRequest, ctx)",
+	"ingest/lokiPostBulkHandler":          "CallWithMyId(loki.ProcessLokiLogsIngestRequest, ctx)",
+	"ingest/otlpIngestLogsHandler":        "CallWithMyId(otlp.ProcessLogIngest, ctx)",
+	"ingest/otlpIngestTracesHandler":      "CallWithMyId(otlp.ProcessTraceIngest, ctx)",
 	"ingest/otsdbPutMetricsHandler":       "CallWithMyId(otsdbwriter.PutMetrics, ctx)",
 	"ingest/prometheusPutMetricsHandler":  "CallWithMyId(prometheuswriter.PutMetrics, ctx)",
 }
@@ -107,6 +110,15 @@ func verifyRouteMirror() error {
 		if body := funcBody(handlers, wname); !strings.Contains(body, callee) {
 			return fmt.Errorf("%s entryHandlers.go: %s no longer contains %q", rt.Server, wname, callee)
 		}
+	}
+	// the OTLP log route takes the index name from a resource attribute whose key is an unexported
+	// constant: the request builder (ingest_test.go) must use the same key
+	logs, err := os.ReadFile(filepath.Join(repoDir(), "pkg/otlp/logs.go"))
+	if err != nil {
+		return err
+	}
+	if want := fmt.Sprintf("const indexNameAttributeKey = %q", otlpIndexAttr); !strings.Contains(string(logs), want) {
+		return fmt.Errorf("pkg/otlp/logs.go no longer contains %s", want)
 	}
 	// what the mirror relies on in fasthttp/router: parameters are matched on the undecoded path
 	return nil
